@@ -3,7 +3,7 @@
    DEFINITIONS ONLY.  The specification side (exact rational arithmetic, the
    printf reference, the oracles) is in DigitModelSpec.v.
 
-   The model describes the code AFTER the repairs findings/D28, D40 .. D46.
+   The model describes the code AFTER the repairs findings/D28, D33, D41 .. D46, D48, D49.
 
    Abstractions, stated explicitly:
    * BigInt<uint64, W> is modelled by its value in N.  Multiply / Divide /
@@ -461,13 +461,14 @@ Fixpoint big_to_string (fuel : nat) (b : N) : res (list N) :=
     else if b =? 0 then Ok [] else Ok (u64_to_string_rev b)
   end.
 
-(* bigIntDropDigits *)
-Fixpoint drop_digits (fuel : nat) (b drop : N) : res N :=
+(* bigIntDropDigits (after D49): the quotient and whether any remainder was non-zero *)
+Fixpoint drop_digits (fuel : nat) (b drop : N) (inexact : bool) : res (N * bool) :=
   match fuel with
   | O => Err EFuel
   | S f =>
-    if dg_max_pow5 <=? drop then drop_digits f (b / pow5 dg_max_pow5) (drop - dg_max_pow5)
-    else if drop =? 0 then Ok b else Ok (b / pow5 drop)
+    if dg_max_pow5 <=? drop then
+      drop_digits f (b / pow5 dg_max_pow5) (drop - dg_max_pow5) (inexact || negb (b mod pow5 dg_max_pow5 =? 0))
+    else if drop =? 0 then Ok (b, inexact) else Ok (b / pow5 drop, inexact || negb (b mod pow5 drop =? 0))
   end.
 
 (* while (number < last and number[0] == '0') { ++number; ++index; } *)
@@ -492,9 +493,13 @@ Fixpoint skip_nines (fuel : nat) (buf : list N) (index : N) : res N :=
     else Ok index
   end.
 
-(* roundStringNumber (after D40): returns (stream, index, power_increased) *)
-Definition round_string_number (buf : list N) (index : N) (round_up : bool) : res (list N * N * bool) :=
+(* roundStringNumber (after D33, D49): returns (stream, index, power_increased).
+   round_up: something non-zero was dropped below the digits of the stream; the
+   digits of the stream below [index] count as well (D49) *)
+Definition round_string_number (buf : list N) (started_at index : N) (round_up0 : bool) : res (list N * N * bool) :=
   do c <- getc 3 buf index;
+  let lower := firstn (N.to_nat (index - started_at)) (skipn (N.to_nat started_at) buf) in
+  let round_up := round_up0 || ((c =? ch_five) && existsb (fun x => negb (x =? ch_zero)) lower) in
   let index1 := add32 index 1 in
   let last := blen buf - 1 in
   do odd <- (if (c =? ch_five) && negb round_up && (index <? last)
@@ -523,13 +528,10 @@ Fixpoint write_zeros_down (fuel : nat) (buf : list N) (index zeros : N) : res (l
 Definition insert_power_of_ten (buf : list N) (power : N) (positive : bool) : list N :=
   buf ++ [ch_e; if positive then ch_pos else ch_neg] ++ (if power <? 10 then [ch_zero] else []) ++ u64_to_string power.
 
-Definition restore_zeros (buf : list N) (started_at index number_length fraction_length calc : N) (pinc : bool)
+(* after D48: without a carry the zeros given back are those of the integer part, index - dot_index *)
+Definition restore_zeros (buf : list N) (dot_index index number_length fraction_length : N) (pinc : bool)
   : res (list N * N) :=
-  let zeros :=
-    if pinc then sub32 number_length fraction_length
-    else let rem := sub32 index started_at in
-         let needed := sub32 number_length calc in
-         if needed <? rem then sub32 rem needed else 0 in
+  let zeros := if pinc then sub32 number_length fraction_length else sub32 index dot_index in
   if 100000 <? zeros then Err EHuge else write_zeros_down (S (N.to_nat zeros)) buf index zeros.
 
 Definition format_default (buf : list N) (started_at precision calc fraction_length : N)
@@ -538,7 +540,7 @@ Definition format_default (buf : list N) (started_at precision calc fraction_len
   do '(buf1, index1, power1, pinc, fl1) <-
     (if precision <? number_length then
        let index := sub32 (add32 started_at (sub32 number_length precision)) 1 in
-       do '(b, idx, pinc) <- round_string_number buf index round_up;
+       do '(b, idx, pinc) <- round_string_number buf started_at index round_up;
        if is_positive_exp then
          let diff := sub32 (add32 (sub32 number_length fraction_length)
                                   (if calc <=? precision then 0 else sub32 calc (add32 precision 1)))
@@ -563,7 +565,7 @@ Definition format_default (buf : list N) (started_at precision calc fraction_len
            do z <- zeros (diff - 1); Ok (buf1 ++ z ++ [ch_dot; ch_zero], idx, power1)
          else Ok (buf1, idx, diff)
        else if idx <? dot_index then Ok (insert_at buf1 ch_dot dot_index, idx, power1)
-       else do '(b, i) <- restore_zeros buf1 started_at idx number_length fl1 calc pinc; Ok (b, i, power1)
+       else do '(b, i) <- restore_zeros buf1 dot_index idx number_length fl1 pinc; Ok (b, i, power1)
      else Ok (buf1, index1, power1));
   let buf3 := step_back (reverse_from buf2 started_at) (sub32 index2 started_at) in
   if negb (power2 =? 0) then
@@ -582,7 +584,7 @@ Definition format_fixed (fixed_t : bool) (buf : list N) (started_at precision ca
          do '(b1, i1, pinc) <-
            (if precision <? fraction_length then
               let index := add32 started_at (sub32 fraction_length (add32 precision 1)) in
-              do '(b, idx, pinc) <- round_string_number buf index (round_up || negb (diff =? 0));
+              do '(b, idx, pinc) <- round_string_number buf started_at index round_up;
               do idx2 <- skip_zeros (S (length b)) b idx;
               Ok (b, idx2, pinc)
             else Ok (buf, started_at, false));
@@ -602,7 +604,7 @@ Definition format_fixed (fixed_t : bool) (buf : list N) (started_at precision ca
              if i1 =? 0 then Err (EOob 11)
              else do b <- setc 12 b1 (i1 - 1) ch_zero; Ok (b, i1 - 1, pinc)
          else if i1 <? dot_index then Ok (insert_at b1 ch_dot dot_index, i1, pinc)
-         else do '(b, i) <- restore_zeros b1 started_at i1 number_length fraction_length calc pinc; Ok (b, i, pinc)
+         else do '(b, i) <- restore_zeros b1 dot_index i1 number_length fraction_length pinc; Ok (b, i, pinc)
        else
          let index := add32 started_at (sub32 number_length 1) in
          do b <- setc 13 buf index ch_zero; Ok (b, index, false)
@@ -623,17 +625,19 @@ Fixpoint ctz_pos (p : positive) : N :=
   match p with xO q => 1 + ctz_pos q | _ => 0 end.
 Definition ctz (n : N) : N := match n with N0 => 0 | Npos p => ctz_pos p end.
 
-Fixpoint mul_loop (fuel : nat) (maxindex max_index b times shift : N) : res (N * N * N) :=
+(* [lost]: a non-zero low word has been dropped (D49) *)
+Fixpoint mul_loop (fuel : nat) (maxindex max_index b times shift : N) (lost : bool) : res (N * N * N * bool) :=
   match fuel with
   | O => Err EFuel
   | S f =>
     do b1 <- big_mul maxindex b (pow5 dg_max_pow5);
-    let '(b2, shift2) :=
+    let '(b2, shift2, lost2) :=
       if (max_index <=? big_index b1) && (dg_max_shift <=? shift)
-      then (N.shiftr b1 dg_max_shift, shift - dg_max_shift) else (b1, shift) in
+      then (N.shiftr b1 dg_max_shift, shift - dg_max_shift, lost || negb (b1 mod 2 ^ dg_max_shift =? 0))
+      else (b1, shift, lost) in
     let times2 := times - dg_max_pow5 in
-    if dg_max_pow5 <=? times2 then mul_loop f maxindex max_index b2 times2 shift2
-    else Ok (b2, times2, shift2)
+    if dg_max_pow5 <=? times2 then mul_loop f maxindex max_index b2 times2 shift2 lost2
+    else Ok (b2, times2, shift2, lost2)
   end.
 
 Definition real_to_string (fi : finfo) (pre : list N) (number precision0 fmt : N) : res (list N) :=
@@ -662,22 +666,26 @@ Definition real_to_string (fi : finfo) (pre : list N) (number precision0 fmt : N
            let m_shift := add32 (fi_msize fi) drop in
            do b1 <- (if m_shift <? positive_exp then big_shl mi mantissa (positive_exp - m_shift)
                      else Ok (N.shiftr mantissa (m_shift - positive_exp)));
-           if negb (drop =? 0) then do b2 <- drop_digits 60 b1 drop; Ok (b2, 0, true)
-           else Ok (b1, 0, false)
+           (* D49: bits of the mantissa are lost iff the shift passes its lowest set bit *)
+           let lost := negb (m_shift <? positive_exp) && (first_shift <? m_shift - positive_exp) in
+           if negb (drop =? 0) then do '(b2, inexact) <- drop_digits 60 b1 drop lost; Ok (b2, 0, inexact)
+           else Ok (b1, 0, lost)
          else
            let '(fl0, needed0) :=
              if is_positive_exp then (sub32 first_bit positive_exp, if is_fixed then precision else sub32 precision digits)
              else (add32 first_bit positive_exp, add32 digits precision) in
            let needed := add32 needed0 1 in
-           let '(shift, fl, round_up) := if needed <? fl0 then (fl0 - needed, needed, true) else (0, fl0, false) in
+           let '(shift, fl) := if needed <? fl0 then (fl0 - needed, needed) else (0, fl0) in
            let b0 := N.shiftr mantissa first_shift in
-           do '(b1, times, shift1) <-
+           do '(b1, times, shift1, lost) <-
              (if dg_max_pow5 <=? fl then
                 let max_index := if precision <? fi_maxcut fi then precision / dg_max_pow10 + 2 else mi in
-                mul_loop 200 mi max_index b0 fl shift
-              else Ok (b0, fl, shift));
+                mul_loop 200 mi max_index b0 fl shift false
+              else Ok (b0, fl, shift, false));
            do b2 <- (if negb (times =? 0) then big_mul mi b1 (pow5 times) else Ok b1);
-           Ok (N.shiftr b2 shift1, fl, round_up));
+           (* D49: round_up = some bit dropped by the shifts was set (FindFirstBit() < shift) *)
+           let lost2 := lost || (negb (shift1 =? 0) && negb (b2 =? 0) && (ctz b2 <? shift1)) in
+           Ok (N.shiftr b2 shift1, fl, lost2));
       (* started_at = stream.Length(): the formatters address the stream relative to
          it; the digit run is modelled on its own (started_at = 0) and an access
          below started_at is an explicit error, so the text already in the stream
